@@ -134,7 +134,7 @@ func VerifC05_Props() {
 // VerifC05_Required: a :required / :require list fails the render exactly
 // when a named variable was not provided, and the error names it.
 func VerifC05_Required() {
-	haveMust := zzChoice("must", 3) // 0 absent, 1 prop, 2 includer variable
+	haveMust := zzChoice("must", 5) // 0 absent, 1 prop, 2 includer variable, 3 / 4 bound prop whose value is a blank / the string " false "
 	haveAlso := zzChoice("also", 4) // 3: includer variable that is present with a nil value
 	single := zzBool("single")
 	fmDefines := !single && zzBool("frontmatterDefinesMust")
@@ -145,6 +145,12 @@ func VerifC05_Required() {
 		props += ` must="M"`
 	case 2:
 		data["must"] = "M"
+	case 3:
+		props += ` :must="blank"`
+		data["blank"] = " "
+		data["must"] = "INCLUDER" // the prop, not the includer's variable, is what the component sees
+	case 4:
+		props += ` :must="' false '"`
 	}
 	switch haveAlso {
 	case 1:
@@ -178,6 +184,10 @@ func VerifC05_Required() {
 		zzAssert(err == nil, "C05.required.spurious-error")
 		if fmDefines {
 			zzAssert(strings.Contains(out, "<i>FM-M/"), "C05.required.renders")
+		} else if haveMust == 3 {
+			zzAssert(strings.Contains(out, "<i> </i>") || strings.Contains(out, "<i> /"), "C05.required.renders")
+		} else if haveMust == 4 {
+			zzAssert(strings.Contains(out, "<i> false "), "C05.required.renders")
 		} else {
 			zzAssert(strings.Contains(out, "<i>M"), "C05.required.renders")
 		}
